@@ -30,6 +30,18 @@ def derived_methods(chk, prog):
     tr = ("call", ("attr", SELF, "simulate"), (P("key"), P("args")), ())
     want = ("tuple", tuple(("call", ("attr", tr, a), (), ()) for a in ("get_choices", "get_score", "get_retval")))
     chk.require(r.ret == want, "DELEG-ROLE", "GenerativeFunction.propose", "choices, score, retval of one simulate(key, args)", derived=show(r.ret)[:200], expected=show(want)[:200], where=W(g, "propose"))
+    # the derived methods are defined ONCE, in terms of the primitive ones: a subclass that overrides one replaces the checked definition by its own
+    # (e.g. an ExactDensity.propose that scores without the event-dimension sum of estimate_logpdf changes every forward proposal score of Rejuvenate)
+    derived = ("importance", "update", "propose")
+    over = []
+    for sub in prog.subclasses("GenerativeFunction"):
+        for mname in derived:
+            if mname in sub.methods:
+                over.append(f"{sub.name}.{mname} ({sub.module.rel}:{sub.methods[mname].lineno})")
+    REVIEWED = {"GenerativeFunctionClosure.propose", "GenerativeFunctionClosure.importance", "GenerativeFunctionClosure.update", "IgnoreKwargs.propose", "IgnoreKwargs.importance", "IgnoreKwargs.update"}
+    unrev = [o for o in over if o.split(" ")[0] not in REVIEWED]
+    chk.require(not unrev, "DERIVED-OVERRIDE", "GenerativeFunction/derived-methods", "subclass overriding a derived GFI method", derived=str(unrev) if unrev else f"{len(over)} reviewed override(s)",
+                expected="importance / update / propose are inherited from GenerativeFunction (closures and kwargs wrappers forward them and are judged by C32)", where=W(g, "propose"))
     # Trace.edit / update / project
     ad = ("phi", ("is", P("argdiffs"), C(None)), ("call", ("attr", G("genjax._src.core.compiler.interpreters.incremental.Diff"), "no_change"), (("call", ("attr", SELF, "get_args"), (), ()),), ()), P("argdiffs"))
     r = ev.eval_fn(t.methods["edit"], t.module, t)
